@@ -55,6 +55,9 @@ for sd in sorted(glob.glob("/tmp/wt3/C*/_seed/1")):
 for sd in sorted(glob.glob("/tmp/wt4/C*/_seed/1")):
     pid = sd.split("/")[-3]
     entries.append((pid, "5", sd, f"round 4 (sub-agent, made against {HEAD}, told which ideas were already taken)"))
+for sd in sorted(glob.glob("/tmp/wt5/C*/_seed/1")):
+    pid = sd.split("/")[-3]
+    entries.append((pid, "6", sd, f"round 5 (sub-agent, made against {HEAD}, told which ideas were already taken)"))
 for pid, k, sd, origin in entries:
     dst = os.path.join(OUT, pid, k)
     os.makedirs(dst, exist_ok=True)
